@@ -182,7 +182,11 @@ def check(col: Collector, tier: str):
     sinks = [(f, c, a) for f, c, a in string_sinks(repo)]
     for f, c, a in sinks:
         bad = []
+        # (a string that is the receiver of .format(..) / the left operand of % is interpolated by that call: its braces are holes, not text)
+        formatted = {id(x.func.value) for x in ast.walk(a) if isinstance(x, ast.Call) and isinstance(x.func, ast.Attribute) and x.func.attr in ("format", "format_map")}
         for n in ast.walk(a):
+            if id(n) in formatted:
+                continue
             if isinstance(n, ast.Constant) and isinstance(n.value, str) and re.search(r"\{[A-Za-z_][A-Za-z0-9_.\[\]()]*\}", n.value):
                 # a literal part of an f-string cannot contain single braces, so this is a plain string
                 bad.append(n.value)
